@@ -31,6 +31,13 @@ const FLS: [TDEFLFlush; 5] = [TDEFLFlush::None, TDEFLFlush::Sync, TDEFLFlush::Fu
 
 fn comp_histories(n_inputs: usize, lens: &[usize]) -> Vec<CHist> {
     let mut v = vec![CHist { input: 0, calls: vec![] }];
+    // histories that never consume a byte yet change the object: a flush or Finish on empty input
+    // (header, markers or a whole empty stream emitted, fully or partly drained)
+    for f in 1..=4u8 {
+        v.push(CHist { input: 0, calls: vec![(0, 200_000, f)] });
+        v.push(CHist { input: 0, calls: vec![(0, 3, f)] });
+        v.push(CHist { input: 0, calls: vec![(0, 200_000, 1), (0, 200_000, f)] });
+    }
     for i in 0..n_inputs {
         let n = lens[i];
         for &k in &[1usize, 10, 258, 300, 5000, 40000, usize::MAX] {
@@ -219,7 +226,7 @@ pub fn run(tier: &str) -> i32 {
     // mz_deflateReset
     let mut c_cases = 0u64;
     for (hi, h) in hists.iter().enumerate() {
-        if !th && hi % 4 != 0 {
+        if !th && hi % 4 != 0 && !h.calls.iter().all(|c| c.0 == 0) {
             continue;
         }
         for level in [1, 6] {
@@ -297,7 +304,24 @@ pub fn run(tier: &str) -> i32 {
     }
     let n_basic_streams = 5;
     let mut ihists: Vec<IHist> = vec![IHist { stream: 0, fmt: 0, calls: vec![] }];
-    for si in n_basic_streams..streams.len() {
+    // streams abandoned at *every* byte of a dynamic block header that uses many code-length
+    // symbols (whatever a half-read header left in the tables must not matter after a reset)
+    {
+        let text = corpus::shape_named("T", &[(Seg::T, 3000)]).data;
+        for z in [false, true] {
+            let c = if z { miniz_oxide::deflate::compress_to_vec_zlib(&text, 6) } else { miniz_oxide::deflate::compress_to_vec(&text, 6) };
+            streams.push(GenStream { bytes: c, plain: text.clone(), deflate_bits: 0, zlib: z, desc: format!("T3000 level 6 zlib={}", z), nblocks: 0, block_starts: vec![], block_out_starts: vec![] });
+            let si = streams.len() - 1;
+            let fmt = if z { 1u8 } else { 0 };
+            for k in 1..=40usize {
+                ihists.push(IHist { stream: si, fmt, calls: vec![(k, 100_000, 0)] });
+                // (pushed twice so the quick tier's every-other-history stride keeps each cut)
+                ihists.push(IHist { stream: si, fmt, calls: vec![(k, 100_000, 0)] });
+            }
+        }
+    }
+    let n_hist_streams = streams.len();
+    for si in n_basic_streams..n_hist_streams - 2 {
         let n = streams[si].bytes.len();
         let fmt = if streams[si].zlib { 1u8 } else { 0 };
         ihists.push(IHist { stream: si, fmt, calls: vec![(n, 100_000, 0)] });
@@ -338,6 +362,27 @@ pub fn run(tier: &str) -> i32 {
             }
             let mut s = b.finish();
             s.desc = format!("probe-{}-first", ["fixed", "dynamic", "stored"][i]);
+            iprobes.push(s);
+        }
+        // dynamic blocks whose header sends few code-length-code lengths (HCLEN 5 and 7): entries
+        // the header does not send must read as zero
+        for (i, zl) in [(0usize, None), (1, Some((7u8, 2u8)))] {
+            let mut ll = vec![8u8; 257];
+            ll[255] = 0;
+            if i == 1 {
+                ll[0] = 7;
+                ll[1] = 7;
+                ll[252] = 9;
+                ll[253] = 9;
+                ll[254] = 9;
+                ll[256] = 9;
+            }
+            let spec = crate::gen::DynSpec::new(ll, vec![0u8]);
+            let toks = [Token::Lit(b'h'), Token::Lit(0), Token::Lit(254), Token::Lit(b'c')];
+            let mut b = StreamBuilder::new(zl);
+            b.dynamic(&spec, &toks, true);
+            let mut s = b.finish();
+            s.desc = format!("probe-dynamic-hclen{}", spec.hclen);
             iprobes.push(s);
         }
         let t = corpus::shape_named("T", &[(Seg::T, 50000)]).data;
